@@ -877,14 +877,23 @@ fn note_build_problems(rep: &Reporter, st: &Stats, p: &Prepared, allow_reject: b
     if e == "not requested" {
       return;
     }
-    add(&st.build_problems);
-    if allow_reject && e.contains("UndefinedMetaVar") {
-      // hand-written templates with names the rule does not define: the rule route is not available
-    } else if e.starts_with("panic") {
-      rep.violation(&format!("panic:{what}:{}", digits_out(e)), json!({"kind": "build", "template": tpl, "what": what, "message": e}));
-    } else {
-      // the statement says nothing about which templates load; reported as machinery if it happens
-      machinery(&format!("{what} for template {tpl:?}: {e}"));
+    // the loader names the variable it misses: UndefinedMetaVar("NAME", "fix")
+    let undefined = e.split("UndefinedMetaVar(\"").nth(1).and_then(|r| r.split('"').next());
+    let is_ref_var = |n: &str| ref_scan(tpl).iter().any(|p| matches!(p, Piece::Var { name, .. } if name == n));
+    match undefined {
+      Some(n) if !is_ref_var(n) => {
+        // the loader treats literal template text as a variable reference
+        rep.violation(&format!("{what}:literal-text-taken-for-a-variable"), json!({"kind": "build", "template": tpl, "what": what, "message": e, "not_a_variable": n}));
+      }
+      Some(_) if allow_reject => {
+        // hand-written templates with names the rule does not define: the rule route is not available
+        add(&st.build_problems);
+      }
+      _ if e.starts_with("panic") => {
+        rep.violation(&format!("panic:{what}:{}", digits_out(e)), json!({"kind": "build", "template": tpl, "what": what, "message": e}));
+      }
+      // the statement says nothing about which templates load; machinery if it ever happens
+      _ => machinery(&format!("{what} for template {tpl:?}: {e}")),
     }
   };
   if let Err(e) = &p.tf {
@@ -918,6 +927,18 @@ fn deindent(p: &str, m: usize) -> Option<String> {
   }
   Some(out)
 }
+
+/// tab-indented sources: used for the round-trip (no-op) law only, which does not depend on how
+/// a tab is counted; the indentation formula of the reference is stated for spaces
+const TAB_SOURCES: &[(&str, &str)] = &[
+  ("javascript", "\tq = f({\n\t\tk: 1,\n\t});\n"),
+  ("javascript", "if (a) {\n\tf([1,\n\t\t2]);\n}\n"),
+  ("javascript", "function g() {\n\treturn h(x, () => {\n\t\ty('é');\n\t});\n}\n"),
+  ("javascript", "z;\n\t  f([\n\t    '🦀',\n\t  ]);\n"),
+  ("python", "def f(a):\n\tif a:\n\t\treturn g(a,\n\t\t\tb)\n\treturn 1\n"),
+  ("rust", "fn f() {\n\tlet v = g(a,\n\t\tb);\n}\n"),
+  ("go", "package p\n\nfunc f(a int, b int) int {\n\t// note\n\treturn a + b\n}\n"),
+];
 
 const CUT_SINGLES: &[&str] = &["V0", "V1", "V2", "A"];
 const CUT_MULTIS: &[&str] = &["V"];
@@ -1167,6 +1188,16 @@ fn replay(rep: &Reporter, case: &Value) -> ! {
       let spec = spec_by_name(case["lang"].as_str().unwrap()).unwrap();
       let src = case["src"].as_str().unwrap();
       let g = spec.lang.ast_grep(src);
+      let (pt, fx) = (case["pattern"].as_str().unwrap(), case["fix"].as_str().unwrap());
+      println!("source  : {src:?}\npattern : {pt:?}\nfix     : {fx:?}");
+      if let (Ok(pat), Ok(tf)) = (Pattern::try_new(pt, spec.lang), TemplateFix::try_new(fx, &spec.lang)) {
+        for nm in g.root().find_all(&pat) {
+          let env = env_of(src, nm.get_env(), CUT_SINGLES, CUT_MULTIS, NO_TRANS);
+          let exp = ref_expand(fx, &ref_scan(fx), &env, line_indent(src, nm.range().start));
+          let got = guarded(std::panic::AssertUnwindSafe(|| String::from_utf8_lossy(&Replacer::<D>::generate_replacement(&tf, &nm)).to_string()));
+          println!("match {:?} text {:?}\n  observed : {:?}\n  reference: {:?} (lines compared up to indentation: {:?})", nm.range(), nm.text(), got, exp.text, exp.loose);
+        }
+      }
       check_pattern_fix(rep, &st, &samples, spec.name, spec.lang, &g, src, case["pattern"].as_str().unwrap(), case["fix"].as_str().unwrap(), true);
     }
     "self" => {
@@ -1313,6 +1344,12 @@ fn main() {
     st.absorb(&local);
   });
   per_lang.push(json!({"lang": "javascript (layout grid)", "sources": rt_layouts.len(), "cuts": get(&st.rt_cuts) - before.0, "own_text_fixes_judged": get(&st.rt_cut_noop_judged) - before.1}));
+  TAB_SOURCES.par_iter().for_each(|(lang, src)| {
+    let local = Stats::default();
+    roundtrip_source(&rep, &local, &samples, spec_by_name(lang).unwrap(), src, 2, true);
+    st.absorb(&local);
+  });
+  per_lang.push(json!({"lang": "tab-indented sources (javascript, python, rust, go)", "sources": TAB_SOURCES.len()}));
   let secs_c = t_c.elapsed().as_secs_f64();
 
   let cov = json!({
